@@ -57,15 +57,25 @@ def run(ctx):
     enum = [st for st in iter_stmts(vl.body) if isinstance(st, ast.Assign) and any(isinstance(c, ast.Call) and dotted(c.func) == 'enumerate' for c in ast.walk(st.value))]
     inner = [st for st in iter_stmts(vl.body) if isinstance(st, ast.For) and isinstance(st.target, ast.Tuple) and len(st.target.elts) == 2]
     axisvar = None
+    from .. import paths as _paths
     if inner:
+        # the iterable with temporaries substituted and order/copy wrappers removed must be enumerate(<variable>.dimensions)
         it = inner[0].iter
-        src_ok = False
-        srcname = norm(it).split('[')[0]
-        if enum and norm(enum[0].targets[0]) == srcname:
-            e = [c for c in ast.walk(enum[0].value) if isinstance(c, ast.Call) and dotted(c.func) == 'enumerate'][0]
-            src_ok = norm(e.args[0]) in (dimsname or '', '%s.dimensions' % vname)
-        elif isinstance(it, ast.Call) and dotted(it.func) == 'enumerate':
-            src_ok = norm(it.args[0]) in (dimsname or '', '%s.dimensions' % vname)
+        for pth in _paths.enumerate_paths(vl.body):
+            res = _paths.expand(pth)
+            hit = [new for st, new in res.stmts if st is inner[0]]
+            if hit and res.feasible:
+                it = hit[0].iter
+                break
+        e = it
+        while True:
+            if isinstance(e, ast.Call) and isinstance(e.func, ast.Name) and e.func.id in ('list', 'tuple', 'reversed') and len(e.args) == 1:
+                e = e.args[0]
+            elif isinstance(e, ast.Subscript) and isinstance(e.slice, ast.Slice):
+                e = e.value
+            else:
+                break
+        src_ok = isinstance(e, ast.Call) and dotted(e.func) == 'enumerate' and len(e.args) == 1 and norm(e.args[0]) == '%s.dimensions' % vname
         axisvar = inner[0].target.elts[0].id if isinstance(inner[0].target.elts[0], ast.Name) else None
         if src_ok and axisvar:
             ctx.ok('R-AXISOFVAR', 'axis source', where, 'for %s in %s over enumerate(%s.dimensions)' % (norm(inner[0].target), norm(it)[:30], vname))
@@ -120,11 +130,29 @@ def run(ctx):
         ctx.ok('R-UNTOUCHED', 'store', where, 'every variable: copyVariable(..., withdata=False) then [...] = %s (outside any dimension test)' % run_name)
     else:
         ctx.violation(Finding('R-UNTOUCHED', RP, Q, vl, 'not every variable is copied and assigned the running value at the end of the loop body: variables without the named dimensions are missing or empty in the result'))
-    guard = [st for st in iter_stmts(vl.body) if isinstance(st, ast.If) and norm(st.test) in ('dk in dimfuncs', 'dk in dimfuncs.keys()')]
-    if guard:
-        ctx.ok('R-UNTOUCHED', 'guard', where, 'only dimensions named in the call are processed')
+    # on every path of the per-axis loop body on which the running value is replaced, the dimension was found among the named ones
+    unguarded, nrepl, skipped = None, 0, None
+    if inner:
+        dkn = inner[0].target.elts[1].id if isinstance(inner[0].target.elts[1], ast.Name) else None
+        for pth in _paths.enumerate_paths(inner[0].body):
+            repl = [st for st in pth.stmts if isinstance(st, (ast.Assign, ast.AugAssign)) and any(isinstance(t, ast.Name) and t.id == run_name for t in (st.targets if isinstance(st, ast.Assign) else [st.target]))]
+            if not repl:
+                # a named dimension that is skipped: the reducer is not applied along it although it was asked for
+                if pth.exit[0] != 'raise' and any(pth.polarity(t) is True for t in ('%s in dimfuncs' % dkn, '%s in dimfuncs.keys()' % dkn)):
+                    extra = [norm(e) for e, p_ in pth.conds if norm(e) not in ('%s in dimfuncs' % dkn, '%s in dimfuncs.keys()' % dkn) and 'verbose' not in norm(e)]
+                    skipped = (pth, extra)
+                continue
+            nrepl += 1
+            if not any(pth.polarity(t) is True for t in ('%s in dimfuncs' % dkn, '%s in dimfuncs.keys()' % dkn)):
+                unguarded = repl[0]
+    if nrepl == 0:
+        raise AnalysisError('construct not understood: the running value is never replaced in the per-axis loop')
+    if skipped is not None:
+        ctx.violation(Finding('R-UNTOUCHED', RP, Q, inner[0], 'a dimension named in the call is not processed when %s: the function is not applied along it' % (' / '.join(skipped[1]) or 'some path is taken')), oid='guard')
+    elif unguarded is None:
+        ctx.ok('R-UNTOUCHED', 'guard', where, 'only dimensions named in the call are processed (%d replacing paths, all under `in dimfuncs`)' % nrepl)
     else:
-        ctx.violation(Finding('R-UNTOUCHED', RP, Q, vl, 'the processing of a variable axis is not guarded by `dk in dimfuncs`'), oid='guard')
+        ctx.violation(Finding('R-UNTOUCHED', RP, Q, unguarded, 'the processing of a variable axis is not guarded by `dk in dimfuncs`'), oid='guard')
     bad = None
     for st in iter_stmts(vl.body):
         if isinstance(st, ast.Assign) and (norm(st.targets[0]) == run_name or st in stores):
@@ -140,28 +168,82 @@ def run(ctx):
     if not dloops:
         raise AnalysisError('anchor vanished: dimension-length loop of applyAlongDimensions')
     dl = dloops[0]
-    fvar = dl.target.elts[1].id
-    nd = [st for st in iter_stmts(dl.body) if isinstance(st, ast.Assign) and norm(st.targets[0]) == 'newdl']
-    okn = okc = False
-    for st in nd:
-        t = norm(st.value)
-        if t.startswith('getattr(') and 'keepdims=True' in t and t.endswith('.size') and ('%s)(' % fvar) in t:
-            okn = st
-        elif t.startswith('%s(' % fvar) and t.endswith('.size'):
-            okc = st
-        elif t in ('len(dv)',):
+    if not (isinstance(dl.target, ast.Tuple) and len(dl.target.elts) == 2 and all(isinstance(e, ast.Name) for e in dl.target.elts)):
+        raise AnalysisError('construct not understood: target of the dimension-length loop')
+    kvar, fvar = dl.target.elts[0].id, dl.target.elts[1].id
+    # path-wise with temporaries substituted (paths.py): what is stored under the processed key on each path through the loop body
+    from .. import paths as _paths
+    okn = okc = None
+    nstores = 0
+    table = None
+    for pth in _paths.enumerate_paths(dl.body):
+        if pth.exit[0] == 'raise':
+            continue
+        res = _paths.expand(pth)
+        if not res.feasible:
+            continue
+        ex = res.stmts
+        stored = [(st, new) for st, new in ex if isinstance(st, ast.Assign) and isinstance(st.targets[0], ast.Subscript)
+                  and norm(st.targets[0].slice) == kvar and isinstance(st.targets[0].value, ast.Name)]
+        if not stored:
+            continue
+        st, new = stored[-1]
+        table = st.targets[0].value.id
+        nstores += 1
+        t = norm(new.value)
+        isstr = res.polarity('isinstance(%s, str)' % fvar)
+        named_in = res.polarity('%s in dimfuncs' % kvar)
+        v = new.value
+        sized = isinstance(v, ast.Attribute) and v.attr == 'size' and isinstance(v.value, ast.Call)
+        call = v.value if sized else None
+        coord = ('self.variables[%s]' % kvar, 'arange(len(')
+        if isstr is True:
+            good = sized and isinstance(call.func, ast.Call) and dotted(call.func.func) == 'getattr' and len(call.func.args) == 2 \
+                and norm(call.func.args[1]) == fvar and any(c in norm(call.func.args[0]) for c in coord) \
+                and isinstance(kw(call, 'keepdims'), ast.Constant) and kw(call, 'keepdims').value is True
+            if good:
+                okn = okn or st
+            else:
+                ctx.violation(Finding('R-DIMLENOUT', RP, Q, st, 'for a named reducer the new length of the dimension is %s, not the size of getattr(<coordinate values>, %s)(keepdims=True)' % (t[:80], fvar)), oid='named:' + t[:30])
+                okn = False if okn is None else okn
+        elif isstr is False:
+            good = sized and isinstance(call.func, ast.Name) and call.func.id == fvar and call.args and any(c in norm(call.args[0]) for c in coord)
+            if good:
+                okc = okc or st
+            else:
+                ctx.violation(Finding('R-DIMLENOUT', RP, Q, st, 'for a callable the new length of the dimension is %s, not the size of %s(<coordinate values>)' % (t[:80], fvar)), oid='callable:' + t[:30])
+                okc = False if okc is None else okc
+        elif named_in is False and t in ('len(dv)', 'len(self.dimensions[%s])' % kvar):
             pass
         else:
-            ctx.violation(Finding('R-DIMLENOUT', RP, Q, st, 'the new length of the dimension is %s, not the size of the function output on the coordinate values' % t), oid=t[:40])
+            ctx.violation(Finding('R-DIMLENOUT', RP, Q, st, 'the new length of the dimension is %s, not the size of the function output on the coordinate values' % t[:80]), oid=t[:40])
     if okn and okc:
         ctx.ok('R-DIMLENOUT', 'measured', where, 'named: %s ; callable: %s' % (norm(okn.value)[:50], norm(okc.value)[:30]))
-    else:
+    elif nstores == 0:
+        raise AnalysisError('construct not understood: no store of the new dimension length under the loop key in the dimension-length loop')
+    elif okn is None or okc is None:
         ctx.violation(Finding('R-DIMLENOUT', RP, Q, dl, 'the new dimension length is not measured with the same function on the coordinate for %s reducers' % ('named' if not okn else 'callable')), oid='measured')
-    cd = [c for c in ast.walk(fn) if isinstance(c, ast.Call) and (dotted(c.func) or '').endswith('.copyDimension') and kw(c, 'dimlen') is not None]
-    if cd and norm(kw(cd[0], 'dimlen')) in ('newdl', 'dimlens[dk]'):
-        ctx.ok('R-DIMLENOUT', 'applied', where, norm(cd[0])[:60])
+    # the output dimensions are created with the stored lengths (the temporary between table and call, if any, is substituted)
+    applied = None
+    cdstmt = None
+    for lp in [st for st in fn.body if isinstance(st, ast.For) and st is not dl]:
+        for pth in _paths.enumerate_paths(lp.body):
+            ex, env = _paths.expand(pth)
+            for st, new in ex:
+                for c in ast.walk(new):
+                    if isinstance(c, ast.Call) and (dotted(c.func) or '').endswith('.copyDimension') and kw(c, 'dimlen') is not None:
+                        cdstmt = st
+                        lk = lp.target.elts[0].id if isinstance(lp.target, ast.Tuple) and isinstance(lp.target.elts[0], ast.Name) else (lp.target.id if isinstance(lp.target, ast.Name) else None)
+                        if table and norm(kw(c, 'dimlen')) == '%s[%s]' % (table, lk) and kw(c, 'key') is not None and norm(kw(c, 'key')) == lk:
+                            applied = applied if applied is False else c
+                        else:
+                            applied = False
+    if applied:
+        ctx.ok('R-DIMLENOUT', 'applied', where, norm(applied)[:60])
+    elif cdstmt is None:
+        raise AnalysisError('construct not understood: no copyDimension(..., dimlen=...) loop in applyAlongDimensions')
     else:
-        ctx.violation(Finding('R-DIMLENOUT', RP, Q, api.stmt_of(cd[0]) if cd else fn.body[-1], 'the output dimensions are not created with the measured lengths'), oid='applied')
+        ctx.violation(Finding('R-DIMLENOUT', RP, Q, cdstmt, 'the output dimensions are not created with the measured lengths'), oid='applied')
     # ---- wrapper
     io = ctx.src.mod('cmaqfiles/_ioapi.py')
     wf = io.func('ioapi_base.applyAlongDimensions')
